@@ -52,6 +52,7 @@ type interpreter struct {
 	run     *runState              // exploration state of this run (explore.go)
 	sched   *scheduler             // goroutines of this run (sched.go)
 	syncMaps map[*value]*hashmap   // sync.Map contents by address
+	pools    map[*value][]value    // sync.Pool contents by address
 	builders map[*value]*[]byte    // strings.Builder / bytes.Buffer contents by address
 	mutexes  map[*value]*vmMutex   // sync.Mutex / RWMutex state by address
 	steps   int64
